@@ -552,7 +552,9 @@ class DecimalFactory(decimal.Decimal):
         # Define the quantization factor safely
         # Limit scale to avoid InvalidOperation errors
         safe_scale = min(self.scale, 28)  # Python's decimal has max ~28 digits precision
-        factor = decimal.Decimal("10") ** -safe_scale
+        # built from its digits: a power would be computed in the caller's decimal context,
+        # which may round it or underflow (a small Emin)
+        factor = decimal.Decimal((0, (1,), -safe_scale))
 
         # Perform quantization with proper error handling
         try:
